@@ -42,6 +42,18 @@ impl DownloadManifest {
         // Validate header
         header.validate()?;
 
+        // entry_count is not trusted and sizes the entry list and every tag's bit
+        // mask: entries have a fixed size, so the rest of the input bounds it.
+        let remaining = data.len().saturating_sub(cursor.position() as usize);
+        let entry_size =
+            16 + 5 + 1 + if header.has_checksum() { 4 } else { 0 } + header.flag_size() as usize;
+        if header.entry_count() as usize > remaining / entry_size {
+            return Err(DownloadError::Io(std::io::Error::new(
+                std::io::ErrorKind::UnexpectedEof,
+                "entry count exceeds the size of the input",
+            )));
+        }
+
         let mut entries = Vec::with_capacity(header.entry_count() as usize);
         let mut tags = Vec::with_capacity(header.tag_count() as usize);
 
@@ -472,6 +484,17 @@ mod tests {
         // The layout should be: Header | Entries | Tags
         // This is verified by the successful round-trip
         assert!(data.len() > tags_start_offset);
+    }
+
+    #[test]
+    fn test_entry_count_beyond_input_rejected() {
+        let mut data = create_test_manifest()
+            .build()
+            .expect("Operation should succeed");
+
+        // Header claims u32::MAX entries: error, not a huge allocation
+        data[5..9].copy_from_slice(&u32::MAX.to_be_bytes());
+        assert!(DownloadManifest::parse(&data).is_err());
     }
 
     #[test]
